@@ -38,6 +38,7 @@ type FaultSpec struct {
 	FP   int      `json:"fp"`
 	Hit  int      `json:"hit"`
 	Kind string   `json:"kind"` // "error", "panic", "nil"
+	With string   `json:"with,omitempty"` // what a panic fault panics with: "" a string, "lval" a lisp error value, "goerr" the Go error of one, "int", "runtime" a Go runtime error
 	Cond string   `json:"cond,omitempty"`
 	Data []string `json:"data,omitempty"` // raw ints or strings rendered as lisp strings
 }
@@ -266,6 +267,14 @@ func (w *World) installProbes() error {
 		elpsutil.Function("cur-pkg", lisp.Formals(), w.bCurPkg),
 		elpsutil.Function("mark", lisp.Formals("id"), w.bMark),
 		elpsutil.Function("handle", lisp.Formals(), bHandle),
+		// host builtins meant to be used AS HANDLERS in handler-bind: each is
+		// the fault point 91 / 92 and yields the number of data values
+		elpsutil.Function("hf1", lisp.Formals("c", lisp.VarArgSymbol, "d"), func(env *lisp.LEnv, args *lisp.LVal) *lisp.LVal {
+			return w.bFP(env, lisp.SExpr([]*lisp.LVal{lisp.Int(91), lisp.Int(len(args.Cells) - 1)}))
+		}),
+		elpsutil.Function("hf2", lisp.Formals("c", lisp.VarArgSymbol, "d"), func(env *lisp.LEnv, args *lisp.LVal) *lisp.LVal {
+			return w.bFP(env, lisp.SExpr([]*lisp.LVal{lisp.Int(92), lisp.Int(len(args.Cells) - 1)}))
+		}),
 	)
 	// the same cooperative fault point as a host-registered SPECIAL OPERATOR:
 	// (sim:fpo id expr) decides first, then evaluates expr
@@ -330,6 +339,18 @@ func (w *World) bFP(env *lisp.LEnv, args *lisp.LVal) *lisp.LVal {
 				Frames: len(w.RT.Stack.Frames), Nest: w.RT.EvalNesting(), Pkg: w.RT.Package.Name})
 			switch f.Kind {
 			case "panic":
+				// whatever value the host code panics with, it is a host panic
+				switch f.With {
+				case "lval":
+					panic(env.ErrorCondition("sim-fault", id))
+				case "goerr":
+					panic(lisp.GoError(env.ErrorCondition("my-error", "wrapped")))
+				case "int":
+					panic(id)
+				case "runtime":
+					var np *simHandle
+					_ = *np.P
+				}
 				panic(fmt.Sprintf("sim: injected host panic at fp %d hit %d", id, hit))
 			case "nil":
 				return nil
